@@ -41,6 +41,9 @@ TRUSTED_BASE = [
     "resume signal is not interrupted again (unchecked: which mover the planner interrupts and when is not under contract)",
     "K-interrupt-call (assumed, SimPy): Process.interrupt(cause) on a process taken from a bookkeeping dictionary raises "
     "RuntimeError or schedules an interruption; it runs no user code in the calling segment and touches no store field",
+    "A-planner-delay: _delayed_interrupt(item_id, delay, reason) requires delay >= 0; the requirement is an obligation where "
+    "the delay is a modelled number and ASSUMED where it comes out of the assumed pattern analysis (continuous store: "
+    "handle_new_item_during_interruption, _execute_interruption_plan -- the code guards both with `if delay > 0`)",
     "opaque truthiness: a value outside the model is truthy or falsy without constraint (both branches are verified)",
     "A-bookkeeping: the belt stores' dictionaries active_move_processes / active_delayed_interrupt_processes are "
     "outside the modelled state (membership unconstrained; del/lookup assumed not to raise)",
